@@ -22,7 +22,10 @@ def handle (j : Json) : Except String Json := do
   let y0 ← jList jRat (← field j "y0")
   let tol ← jRat (← field j "tol")
   let rel ← jBool (← field j "rel")
-  let step := affine C d
+  -- family "blowup": dx/dt = x² on the first component (exact flow x/(1-100x) until the singularity), relaxing others
+  let step := match fieldD j "blowup" .null with
+    | .null => affine C d
+    | _ => blowStep (C.map fun row => row.headD 0) d
   let small := if rel then smallRel tol else smallAbs tol
   -- the state the integrator holds when the search is called: (`t0`, `y0`); `orig` = the initial conditions
   let t0 ← jRat (fieldD j "t0" (.str "0"))
@@ -32,17 +35,18 @@ def handle (j : Json) : Except String Json := do
   let shift ← match fieldD j "shift" .null with
     | .null => pure none
     | x => some <$> jRat x
-  let loop := ssRun copies step small maxSteps (if Gen.continues then y0 else orig)
+  let loop := ssRun copies Gen.checks step okState small maxSteps (if Gen.continues then y0 else orig)
   -- `prior` = number of rows the simulator already holds from earlier successful calls (the last one at `t0`)
   let prior ← jNat (fieldD j "prior" (.num 0))
   let sim0 : Sim (List Rat) :=
     ⟨[], if prior == 0 then none else some (List.replicate (prior - 1) (0, orig) ++ [(t0, y0)]), shift, ⟨t0, y0, orig⟩⟩
-  let sim := simulateToSteadyState Gen.continues copies step small maxSteps Gen.stepSize sim0
+  let sim := simulateToSteadyState Gen.continues copies Gen.checks step okState small maxSteps Gen.stepSize sim0
   let res := getResult sim
   let row := workerRow res
   let outJ : Json := match loop with
     | .steady n y => Json.mkObj [("outcome", "steady"), ("n", .num n), ("y", ratsJ y)]
     | .noSteadyState => Json.mkObj [("outcome", "NoSteadyState")]
+    | .integrationFailure => Json.mkObj [("outcome", "IntegrationFailure")]
   let resJ : Json := match res with
     | .ok rows => .arr #[.str "ok", .arr (rows.map fun r => Json.arr #[ratJ r.1, ratsJ r.2]).toArray]
     | .error .noSteadyState => .arr #[.str "error", .str "NoSteadyState"]
